@@ -127,7 +127,13 @@ PY_ENV = {'pi': math.pi, 'sin': math.sin, 'cos': math.cos, 'tan': math.tan, 'ln'
           'exp': math.exp, 'sqrt': math.sqrt}
 
 
-def py_value(src, env, textual=False):
+def _np_env():
+    import numpy as np
+    return {'pi': np.pi, 'sin': np.sin, 'cos': np.cos, 'tan': np.tan, 'ln': np.log,
+            'exp': np.exp, 'sqrt': np.sqrt}
+
+
+def py_value(src, env, textual=False, numpy=False):
     """Value of Python source `src`; formals bound as values, or (textual) spliced in as
     `repr(float)` the way replace_param_indices does."""
     import re
@@ -141,9 +147,9 @@ def py_value(src, env, textual=False):
             src = re.sub(r'[A-Za-z_][A-Za-z_0-9]*',
                          lambda m: repr(float(env[m.group(0)]))
                          if m.group(0) in env else m.group(0), src)
-            v = eval(src, {}, dict(PY_ENV))
+            v = eval(src, {}, _np_env() if numpy else dict(PY_ENV))
         else:
-            d = dict(PY_ENV)
+            d = _np_env() if numpy else dict(PY_ENV)
             d.update(env)
             v = eval(src, {}, d)
         if isinstance(v, complex):
@@ -350,7 +356,10 @@ class Ref:
         if self.mode == 'tree':
             return e_eval(e, env)
         src = toks_python(e_tokens(e, 1, random.Random(0), 0.0), True)
-        return py_value(src, env, textual=(self.mode == 'textual'))
+        import warnings
+        with warnings.catch_warnings():
+            warnings.simplefilter('ignore')
+            return py_value(src, env, textual=(self.mode == 'textual'), numpy=True)
 
     def inst(self, name, vals, loc):
         if name in self.defs:
